@@ -449,7 +449,9 @@ type C17Shape struct {
 
 func c17CheckShape(c C17Shape) *pbt.Violation {
 	str := func(s string) *rn.Tag { return &rn.Tag{Type: rn.String, S: []byte(s)} }
-	comp := func(s string) *rn.Tag { return &rn.Tag{Type: rn.Compound, K: [][]byte{[]byte("text")}, V: []*rn.Tag{str(s)}} }
+	comp := func(s string) *rn.Tag {
+		return &rn.Tag{Type: rn.Compound, K: [][]byte{[]byte("text")}, V: []*rn.Tag{str(s)}}
+	}
 	first := c.Texts[0]
 	// bare string, compound, list — NBT
 	nbtInputs := map[string]*rn.Tag{"string": str(first), "compound": comp(first)}
